@@ -95,6 +95,8 @@ func selfTest() (problems []string, fired int) {
 	ruleP1(c)
 	ruleP4(c)
 	ruleP5(c)
+	ruleL1(c, "L1", 0)
+	rulePF(c, "PF", 0)
 	// json
 	ruleJ124(c)
 	// map order
@@ -123,12 +125,12 @@ func selfTest() (problems []string, fired int) {
 		{"O1", "cmp"}, {"O2", "cmp"}, {"O3", "sort.Slice"},
 		{"P1", "DynamicRegex"}, {"P1", "ExplicitPanic"}, {"P1", "cmp/panic"},
 		{"P4", "UnguardedIndex/s:index const 0"}, {"P4", "UnguardedIndex/s:index len-1"},
-		{"P5", "Divide"}, {"P5", "Repeat"},
+		{"P5", "Divide"}, {"P5", "Repeat"}, {"L1", "StaleLength"}, {"PF", "DropsPrefs"},
 		{"J1", "EscapesHTML"}, {"J2", "LossyNumber"}, {"J4", "IntoMap"},
 		{"G5", "MapOrder"},
 		{"X1", "MutatesInput"}, {"G1", "WritesGlobal"},
 	}
-	mustNot := []selfExpect{{"X1", "MutatesCopy"}, {"P4", "GuardedIndex"}, {"X1", "CandidateNode.Copy"}}
+	mustNot := []selfExpect{{"PF", "ForwardsPrefs"}, {"L1", "FreshLength"}, {"X1", "MutatesCopy"}, {"P4", "GuardedIndex"}, {"X1", "CandidateNode.Copy"}}
 	have := map[string][]string{}
 	for _, o := range r.obligs {
 		if o.Verdict == "finding" {
